@@ -21,7 +21,7 @@ func (g *G) Int(n int) int {
 }
 func (g *G) Pick(l []string) string { return l[g.R.Intn(len(l))] }
 
-var idPoolAll = []string{"a", "b", "c", "d", "e", "f", "n+++1", "é", "pkg-1.0", "x y"}
+var idPoolAll = []string{"a", "b", "c", "d", "e", "f", "n+++1", "é", "pkg-1.0", "x y", "a1", "a11", "a+", "a++"}
 var strPool = []string{"x", "y", "v1", "é:+", "(c) 2024", "Apache-2.0", "a b", ""}
 var purlPool = []string{"pkg:npm/a@1", "pkg:npm/b@2", "pkg:deb/debian/c@3", "pkg:/npm/d@4", "pkg:golang/e"}
 var hashVals = []string{"aa", "bb", "cc", ""}
@@ -212,7 +212,7 @@ func (g *G) NodeList(o NLOpts) M {
 	}
 	roots := []any{}
 	if len(present) > 0 || !o.WF {
-		nr := g.Int(3)
+		nr := g.Int(5)
 		for i := 0; i < nr; i++ {
 			r := endpoint()
 			dup := false
